@@ -28,7 +28,18 @@ def permute_phase_axis(name, arr, perm):
 
 def run_pair(cfgA, cfgB, perm=None, rtol=0.0, allowed=()):
     ev = [{"e": "init", "allowed": list(allowed)}]
+    # schedules given as numpy arrays: the very same array objects are handed to both runs (as a user script would)
+    shared = {}
+    for cfg in (cfgA, cfgB):
+        t = cfg.get("temp")
+        if t and t[0] in ("array", "function") and cfg.get("np_arrays"):
+            key = (tuple(t[1]), tuple(t[2]))
+            if key not in shared:
+                shared[key] = (np.array(t[1], dtype=np.float64), np.array(t[2], dtype=np.float64), np.array(t[1], dtype=np.float64), np.array(t[2], dtype=np.float64))
+            cfg["temp"] = (t[0], shared[key][0], shared[key][1])
     ra, rb = K.run(cfgA), K.run(cfgB)
+    for key, (h, k, h0, k0) in shared.items():
+        ev.append({"e": "cmp", "name": "schedule-arrays-untouched", "c": "eq" if (np.array_equal(h, h0) and np.array_equal(k, k0)) else "gt"})
     for tag, r in (("A", ra), ("B", rb)):
         if r["error"]:
             ev.append({"e": "exception", "msg": "%s: %s" % (tag, r["error"])})
@@ -63,6 +74,9 @@ def temperature_pairs():
             a = dict(base, temp=temp, iter=it, temp_via="setter", tag="temp-%s-%s-setter" % (kind, it))
             b = dict(base, temp=temp, iter=it, temp_via="constructor", tag="temp-%s-%s-constructor" % (kind, it))
             out.append((a, b, "%s/%s: setter vs constructor" % (kind, it)))
+            if kind == "array":
+                a2, b2 = dict(b, np_arrays=True, tag=b["tag"] + "-np"), dict(a, np_arrays=True, tag=a["tag"] + "-np")
+                out.append((a2, b2, "%s/%s: constructor then setter, same numpy arrays" % (kind, it)))
         # break points vs the same schedule as a function
         a = dict(base, temp=("array", [0, H(100.0)], [1000, 1006]), iter=it, tag="temp-array-%s" % it)
         b = dict(base, temp=("function", [0, H(100.0)], [1000, 1006]), iter=it, tag="temp-asfunction-%s" % it)
